@@ -333,6 +333,46 @@ func runWidthCase(c widthCase, version int64, extra extraOracle) (fail string) {
 			}
 		}
 	}
+	// the same children below a branch that ALSO carries a value (the common prefix is a path of its own; even
+	// prefix lengths only): the value is added last, removed again (the branch goes back to being value-less or
+	// is reduced), then the first child is removed
+	if c.Pos%2 == 0 {
+		w2 := NewWorld(StoreKind(c.Kind), version)
+		defer w2.Close()
+		prefix := paths[0][:c.Pos]
+		all := append(append([]string{}, paths...), prefix)
+		step2 := func(o Op) string {
+			if f := w2.Apply(o); f != "" {
+				return fmt.Sprintf("[value on the branch] %v: %s", o, f)
+			}
+			if f := w2.Observe(all); f != "" {
+				return fmt.Sprintf("[value on the branch] after %v: %s", o, f)
+			}
+			if extra != nil {
+				if f := extra(w2); f != "" {
+					return fmt.Sprintf("[value on the branch] after %v: %s", o, f)
+				}
+			}
+			return ""
+		}
+		for i, p := range paths {
+			if f := w2.Apply(Op{K: 'I', P: p, V: fmt.Sprintf("v%d", i)}); f != "" {
+				return fmt.Sprintf("[value on the branch] Insert(%q): %s", p, f)
+			}
+		}
+		ops := []Op{{K: 'I', P: prefix, V: "bv"}}
+		if StoreKind(c.Kind) != Mem {
+			ops = append(ops, Op{K: 'F'})
+		}
+		// value removed with all children present; value back, first child removed (for a pair: a value and ONE child
+		// are left), value removed again (the branch is reduced onto its remaining child), last child removed
+		ops = append(ops, Op{K: 'D', P: prefix}, Op{K: 'I', P: prefix, V: "bv2"}, Op{K: 'D', P: paths[0]}, Op{K: 'D', P: prefix}, Op{K: 'D', P: paths[len(paths)-1]})
+		for _, o := range ops {
+			if f := step2(o); f != "" {
+				return f
+			}
+		}
+	}
 	return ""
 }
 
